@@ -78,6 +78,15 @@ def kind3(ctx):
     p = ctx.p
     fi = p.func(f"{PI}.get_excitations")
     node = fi.node
+    # the four excitation tables are identified by their position in the returned tuple
+    # (Acre, Ades, Bcre, Bdes, coeff, ref_det), not by what the local variables are called
+    role: Dict[str, str] = {}
+    rets = [st for st in node.body if isinstance(st, ast.Return)]
+    if rets and isinstance(rets[-1].value, ast.Tuple) and len(rets[-1].value.elts) == 6 and all(
+            isinstance(e_, ast.Name) for e_ in rets[-1].value.elts):
+        role = dict(zip(("Acre", "Ades", "Bcre", "Bdes", "coeff", "ref_det"), [e_.id for e_ in rets[-1].value.elts]))
+    else:
+        raise AnalysisError("get_excitations: does not return the 6-tuple (Acre, Ades, Bcre, Bdes, coeff, ref_det)")
     # rank maps: names bound to np.cumsum(<ref occupation>) - 1
     rank: Dict[str, str] = {}
     ref_names: Dict[str, str] = {}
@@ -101,7 +110,7 @@ def kind3(ctx):
     # the raw lists come from nonzero((d0x - dix) > 0) / < 0
     raw_kind: Dict[str, List[Tuple[str, str]]] = {}
     for name_ in ("Acre", "Ades", "Bcre", "Bdes"):
-        for t, v, conds, line in _assign_targets(node, name_):
+        for t, v, conds, line in _assign_targets(node, role[name_]):
             for nd in ast.walk(v):
                 if isinstance(nd, ast.Call) and (dotted(nd.func) or "").endswith("nonzero") and nd.args and \
                         isinstance(nd.args[0], ast.Compare):
@@ -123,7 +132,7 @@ def kind3(ctx):
     # final stores (array conversion stage): conversions per list
     n_conv: Dict[str, List[Tuple[bool, Optional[str], int]]] = {}
     for name_ in ("Acre", "Ades", "Bcre", "Bdes"):
-        for t, v, conds, line in _assign_targets(node, name_):
+        for t, v, conds, line in _assign_targets(node, role[name_]):
             # only the reshaping stage (value mentions reshape) under a positive membership test
             src = ast.unparse(v)
             if "reshape" not in src:
@@ -131,7 +140,7 @@ def kind3(ctx):
             conv = None
             for nd in ast.walk(v):
                 if isinstance(nd, ast.Subscript) and isinstance(nd.value, ast.Name) and nd.value.id in rank:
-                    if name_ in ast.unparse(nd.slice):
+                    if role[name_] in {n_.id for n_ in ast.walk(nd.slice) if isinstance(n_, ast.Name)}:
                         conv = rank[nd.value.id]
             n_conv.setdefault(name_, []).append((conv is not None, conv, line))
     for name_, spin in (("Acre", "d0[0]"), ("Bcre", "d0[1]")):
@@ -161,7 +170,7 @@ def kind3(ctx):
             good = False
             continue
         sp = "A" if ref_names.get(a[0]) == "d0[0]" else "B" if ref_names.get(a[0]) == "d0[1]" else "?"
-        if not (a[1].startswith(sp + "cre") and a[2].startswith(sp + "des")):
+        if sp == "?" or not (a[1].startswith(role[sp + "cre"]) and a[2].startswith(role[sp + "des"])):
             good = False
         if any(r in a[1] for r in rank):
             good = False
@@ -356,41 +365,74 @@ def _coeff_pairing(ctx, fi, ev):
 def producer_pairing(ctx):
     p = ctx.p
     fi = p.func(f"{PI}.get_excitations")
-    rets = [n for n in ast.walk(fi.node) if isinstance(n, ast.Return)]
-    names = [ast.unparse(e) for e in rets[-1].value.elts] if rets and isinstance(rets[-1].value, ast.Tuple) else []
+    rets = [n for n in fi.node.body if isinstance(n, ast.Return)]
+    elts = rets[-1].value.elts if rets and isinstance(rets[-1].value, ast.Tuple) else []
     ms = p.func("wavefunctions.multislater._calc_overlap")
+    wd_name = [prm.name for prm in ms.params][-1]
     read = []
     for nd in ast.walk(ms.node):
-        if isinstance(nd, ast.Subscript) and isinstance(nd.value, ast.Name) and nd.value.id == "wave_data" and \
+        if isinstance(nd, ast.Subscript) and isinstance(nd.value, ast.Name) and nd.value.id == wd_name and \
                 isinstance(nd.slice, ast.Constant):
             if nd.slice.value not in read:
                 read.append(nd.slice.value)
-    ctx.ob("KEYS-2", "get_excitations returns exactly the wave_data entries multislater reads", names == read
-           and len(names) == 6, f"returns {names}; multislater reads {read}", fi)
-    # ref_det = np.array([d0a, d0b])
-    ok = False
-    for nd in ast.walk(fi.node):
-        if isinstance(nd, ast.Assign) and isinstance(nd.targets[0], ast.Name) and nd.targets[0].id == "ref_det":
-            ok = ast.unparse(nd.value).replace(" ", "") in ("np.array([d0a,d0b])", "numpy.array([d0a,d0b])")
-    ctx.ob("PAIR-1", "get_excitations: ref_det = [alpha reference, beta reference]", ok, "np.array([d0a, d0b])", fi)
-    # get_fci_state: det[s][occ_s[i][j]] for j in range(nelec[s])
+    want = ["Acre", "Ades", "Bcre", "Bdes", "coeff", "ref_det"]
+    ctx.ob("KEYS-2", "get_excitations returns one table per wave_data entry multislater reads, in the documented order",
+           len(elts) == 6 and read == want, f"returns {len(elts)} values; multislater reads {read}", fi)
+    # names bound to np.asarray(<reference>[s]) : the two reference occupation strings
+    ref_spin: Dict[str, int] = {}
+    for st in ast.walk(fi.node):
+        if isinstance(st, ast.Assign):
+            tg, vl = st.targets[0], st.value
+            pairs = list(zip(tg.elts, vl.elts)) if isinstance(tg, ast.Tuple) and isinstance(vl, ast.Tuple) and \
+                len(tg.elts) == len(vl.elts) else [(tg, vl)]
+            for t, v in pairs:
+                if isinstance(t, ast.Name) and isinstance(v, ast.Call) and (dotted(v.func) or "").endswith("asarray") \
+                        and v.args and isinstance(v.args[0], ast.Subscript) and isinstance(v.args[0].slice, ast.Constant) \
+                        and v.args[0].slice.value in (0, 1):
+                    ref_spin.setdefault(t.id, v.args[0].slice.value)
+    # the last returned value is array([alpha reference, beta reference])
+    ok, got = False, "?"
+    if len(elts) == 6 and isinstance(elts[5], ast.Name):
+        for nd in ast.walk(fi.node):
+            if isinstance(nd, ast.Assign) and isinstance(nd.targets[0], ast.Name) and nd.targets[0].id == elts[5].id:
+                v = nd.value
+                if isinstance(v, ast.Call) and (dotted(v.func) or "").split(".")[-1] in ("array", "asarray", "stack") and \
+                        v.args and isinstance(v.args[0], (ast.List, ast.Tuple)) and len(v.args[0].elts) == 2:
+                    sp = [ref_spin.get(x.id) if isinstance(x, ast.Name) else None for x in v.args[0].elts]
+                    got = str(sp)
+                    ok = sp == [0, 1]
+    ctx.ob("PAIR-1", "get_excitations: ref_det = [alpha reference, beta reference]", ok, f"spins of the stacked references {got}", fi)
+    # get_fci_state: (coeff, alpha strings, beta strings) = zip(*large_ci(...)); det[s] filled from list s over nelec[s]
     gf = p.func(f"{PI}.get_fci_state")
+    unpack = None
+    for nd in gf.node.body:
+        if isinstance(nd, ast.Assign) and isinstance(nd.targets[0], ast.Tuple) and len(nd.targets[0].elts) == 3 and \
+                isinstance(nd.value, ast.Call) and dotted(nd.value.func) == "zip" and \
+                any(isinstance(x, ast.Attribute) and x.attr == "large_ci" for x in ast.walk(nd.value)):
+            unpack = [e_.id if isinstance(e_, ast.Name) else None for e_ in nd.targets[0].elts]
+    ctx.ob("PAIR-1", "get_fci_state: large_ci tuples unpack as (coeff, alpha occupation, beta occupation)",
+           unpack is not None and None not in unpack and len(set(unpack)) == 3, f"{unpack}", gf)
     good = 0
-    for nd in ast.walk(gf.node):
-        if isinstance(nd, ast.For) and isinstance(nd.iter, ast.Call) and dotted(nd.iter.func) == "range":
-            rng = ast.unparse(nd.iter.args[0]) if nd.iter.args else ""
-            for st in nd.body:
-                if isinstance(st, ast.Assign) and isinstance(st.targets[0], ast.Subscript):
-                    tgt = ast.unparse(st.targets[0])
-                    for s_, occ in ((0, "occ_a"), (1, "occ_b")):
-                        if tgt.startswith(f"det[{s_}]") and occ in tgt and rng == f"nelec[{s_}]":
-                            good += 1
+    detail = []
+    if unpack and None not in unpack:
+        occ_of = {unpack[1]: 0, unpack[2]: 1}
+        for nd in ast.walk(gf.node):
+            if isinstance(nd, ast.For) and isinstance(nd.iter, ast.Call) and dotted(nd.iter.func) == "range" and nd.iter.args:
+                rg = nd.iter.args[0]
+                rs = rg.slice.value if isinstance(rg, ast.Subscript) and isinstance(rg.slice, ast.Constant) else None
+                for st in nd.body:
+                    if isinstance(st, ast.Assign) and isinstance(st.targets[0], ast.Subscript) and \
+                            isinstance(st.targets[0].value, ast.Subscript) and \
+                            isinstance(st.targets[0].value.slice, ast.Constant):
+                        block = st.targets[0].value.slice.value
+                        used = {n_.id for n_ in ast.walk(st.targets[0].slice) if isinstance(n_, ast.Name)} & set(occ_of)
+                        if len(used) == 1:
+                            src = occ_of[next(iter(used))]
+                            detail.append((block, src, rs))
+                            if block == src == rs:
+                                good += 1
     ctx.ob("PAIR-1", "get_fci_state: det[s] is filled from the spin-s occupation list with nelec[s] electrons",
-           good == 2, f"{good} of 2 spin blocks paired", gf)
-    # zip(*large_ci(...)) order coeffs, occ_a, occ_b
-    ok = any(isinstance(nd, ast.Assign) and ast.unparse(nd.targets[0]).replace(" ", "").strip("()") == "coeffs,occ_a,occ_b"
-             for nd in ast.walk(gf.node))
-    ctx.ob("PAIR-1", "get_fci_state: large_ci tuples unpack as (coeff, alpha occupation, beta occupation)", ok, "", gf)
+           good == 2 and len(detail) == 2, f"(block, list, count) index triples {detail}", gf)
 
 
 def read_dets(ctx):
@@ -414,22 +456,51 @@ def read_dets(ctx):
     fmts = [f for _, f, _ in seq]
     ctx.ob("KEYS-2", "read_dets: header and record layout int, int, {double, char...}", fmts == ["i", "i", "d", "c"]
            and not bad, f"formats in file order {fmts}" + (f"; {bad}" if bad else ""), fi)
-    # assignment of header fields
+    # header fields: the first int bounds the loop over determinants (default count), the second the loop over orbitals
     hdr = []
     for nd in ast.walk(fi.node):
-        if isinstance(nd, ast.Assign) and isinstance(nd.targets[0], ast.Name) and "struct.unpack" in ast.unparse(nd.value):
+        if isinstance(nd, ast.Assign) and isinstance(nd.targets[0], ast.Name) and any(
+                isinstance(c, ast.Call) and (dotted(c.func) or "").endswith("struct.unpack") and c.args and
+                isinstance(c.args[0], ast.Constant) and c.args[0].value == "i" for c in ast.walk(nd.value)):
             hdr.append((nd.lineno, nd.targets[0].id))
     hdr.sort()
-    ctx.ob("KEYS-2", "read_dets: first int is the determinant count, second the orbital count",
-           [h for _, h in hdr][:2] == ["ndets_all", "norbs"], f"{[h for _, h in hdr]}", fi)
-    # occupation mapping
+    hn = [h for _, h in hdr]
+    det_loop = orb_loop = None
+    for nd in ast.walk(fi.node):
+        if isinstance(nd, ast.For) and isinstance(nd.iter, ast.Call) and dotted(nd.iter.func) == "range" and nd.iter.args:
+            unp = [c for c in ast.walk(nd) if isinstance(c, ast.Call) and (dotted(c.func) or "").endswith("struct.unpack")
+                   and c.args and isinstance(c.args[0], ast.Constant)]
+            fm = {c.args[0].value for c in unp}
+            rn = {n_.id for n_ in ast.walk(nd.iter.args[0]) if isinstance(n_, ast.Name)}
+            if "d" in fm and det_loop is None:
+                det_loop = rn
+            if fm == {"c"}:
+                orb_loop = rn
+    cnt_ok = False
+    if len(hn) >= 2 and det_loop is not None and orb_loop is not None:
+        # the determinant loop count defaults to the first header field
+        dflt = set()
+        for nd in ast.walk(fi.node):
+            if isinstance(nd, ast.Assign) and isinstance(nd.targets[0], ast.Name) and nd.targets[0].id in det_loop:
+                dflt |= {n_.id for n_ in ast.walk(nd.value) if isinstance(n_, ast.Name)}
+        cnt_ok = (hn[0] in det_loop or hn[0] in dflt) and hn[1] in orb_loop and hn[0] != hn[1]
+    ctx.ob("KEYS-2", "read_dets: first int is the determinant count, second the orbital count", cnt_ok,
+           f"header ints -> {hn[:2]}; determinant loop over {sorted(det_loop or [])}, orbital loop over {sorted(orb_loop or [])}", fi)
+    # occupation mapping: which spin blocks each occupation character sets
     mapping = {}
     for nd in ast.walk(fi.node):
         if isinstance(nd, ast.If) and isinstance(nd.test, ast.Compare) and isinstance(nd.test.comparators[0], ast.Constant):
             key_ = nd.test.comparators[0].value
             if not isinstance(key_, bytes):
                 continue
-            tg = sorted(ast.unparse(st.targets[0]) for st in nd.body if isinstance(st, ast.Assign))
-            mapping[key_] = tg
-    want = {b"a": ["det[0][j]"], b"b": ["det[1][j]"], b"2": ["det[0][j]", "det[1][j]"]}
+            blocks = []
+            for st in nd.body:
+                if isinstance(st, ast.Assign) and isinstance(st.targets[0], ast.Subscript) and \
+                        isinstance(st.targets[0].value, ast.Subscript) and isinstance(st.targets[0].value.slice, ast.Constant) \
+                        and isinstance(st.value, ast.Constant) and st.value.value == 1:
+                    blocks.append(st.targets[0].value.slice.value)
+            mapping[key_] = sorted(blocks)
+    want = {b"a": [0], b"b": [1], b"2": [0, 1]}
     ctx.ob("KEYS-2", "read_dets: 'a' -> up, 'b' -> down, '2' -> both", mapping == want, f"{mapping}", fi)
+
+
